@@ -14,7 +14,11 @@ RULE = ("TLC enumerates scenario descriptors PER COMPONENT exhaustively (obstacl
         "leaves in class exact / within_tol (|x'-x| < 10^-d, Fraction arithmetic); EVERY differing leaf of an event is "
         "reported (one clause each, at most 8).  distinct_nontrivial = distinct "
         "(descriptor, d).")
-ASSUMPTIONS = ["trajectory states with interval time steps are not generated: Trajectory() rejects them (public constructor)",
+ASSUMPTIONS = ["ids: the pools use symbolic ids; Codec!Renumber materialises them with an id-order token (natural, lights_first, "
+               "interleaved, lanelets_high, obstacles_low, pp_smallest, reversed): every token for stop lines referring to signs AND "
+               "lights and for two-incoming intersections, in rotation over the other lanelet / sign / light / intersection "
+               "cases, at random in the mixed draws",
+               "trajectory states with interval time steps are not generated: Trajectory() rejects them (public constructor)",
                "a stop line without points reads back from XML with points at the lanelet end (2020a); their values are not asserted",
                "initial states are InitialState instances populating a subset of its six attributes (constructor type)",
                "trajectory states have exact time steps t0, t0+1, ... (Trajectory documents contiguity)",
